@@ -287,7 +287,9 @@ def check(prop, tier, seed=0, workers=None, scale=1.0):
     tasks = []
     for family, n in plan:
         n = max(1, int(round(n * scale)))
-        chunk = max(1, min(getattr(mod, "CHUNK", 8), (n + workers - 1) // workers))
+        # one forked (hermetic) process per chunk: a fork costs tens of milliseconds when sixteen processes fork at once, so cheap runs
+        # are grouped into at most ~6 chunks per worker; expensive ones keep the module's own chunk size
+        chunk = max(1, min(max(getattr(mod, "CHUNK", 8), -(-n // (workers * 6))), (n + workers - 1) // workers))
         for s in range(0, n, chunk):
             tasks.append((prop, family, s, min(chunk, n - s), seed, tier))
     ctx = multiprocessing.get_context("fork")
@@ -330,13 +332,17 @@ def check(prop, tier, seed=0, workers=None, scale=1.0):
             r0 = by_origin[origin]
             history = [gen_scenario(mod, prop, r0["family"], j, seed, tier) for j in range(r0["chunk_start"], r0["index"])]
             if history and reproduces(history, scn, v):
-                j = 0
-                while j < len(history):
-                    cand = history[:j] + history[j + 1:]
-                    if reproduces(cand, scn, v):
-                        history = cand
-                    else:
-                        j += 1
+                t_h = time.time()
+                step = max(1, len(history) // 2)
+                while step >= 1 and time.time() - t_h < 120:
+                    j = 0
+                    while j < len(history) and time.time() - t_h < 120:
+                        cand = history[:j] + history[j + step:]
+                        if reproduces(cand, scn, v):
+                            history = cand
+                        else:
+                            j += step
+                    step //= 2
             else:
                 history = []
         if history:
